@@ -12,6 +12,22 @@ pub enum IoKind {
     Other,
 }
 
+/// ASCII characters and the look-alikes that editors and chat tools substitute for them
+pub fn confusable_of(c: u8) -> Option<&'static str> {
+    Some(match c {
+        b' ' => "\u{a0}",
+        b'-' => "\u{2013}",
+        b'"' => "\u{201c}",
+        b'\'' => "\u{2019}",
+        b'.' => "\u{2026}",
+        b'*' => "\u{2217}",
+        b'/' => "\u{2215}",
+        b':' => "\u{ff1a}",
+        b';' => "\u{37e}",
+        _ => return None,
+    })
+}
+
 pub const IO_KINDS: [IoKind; 5] = [IoKind::NotFound, IoKind::PermissionDenied, IoKind::Interrupted, IoKind::InvalidData, IoKind::Other];
 
 impl IoKind {
@@ -38,6 +54,10 @@ pub enum ContentFault {
     SetByte(usize, u8),
     StaleTail(Vec<u8>),
     Replace(Vec<u8>),
+    /// the ASCII character at this byte offset replaced by its typographic look-alike
+    /// (no-break space, en dash, curly quotes, …): text that went through a word processor,
+    /// a web page or a chat tool on its way to the file
+    Confusable(usize),
 }
 
 impl ContentFault {
@@ -50,6 +70,7 @@ impl ContentFault {
             ContentFault::SetByte(..) => "setbyte",
             ContentFault::StaleTail(_) => "stale_tail",
             ContentFault::Replace(_) => "replace",
+            ContentFault::Confusable(_) => "confusable",
         }
     }
 }
@@ -179,6 +200,7 @@ impl ContentFault {
             ContentFault::SetByte(i, b) => json!({"kind":"setbyte","i":i,"byte":b}),
             ContentFault::StaleTail(o) => json!({"kind":"stale_tail","old":bytes_to_json(o)}),
             ContentFault::Replace(o) => json!({"kind":"replace","new":bytes_to_json(o)}),
+            ContentFault::Confusable(i) => json!({"kind":"confusable","i":i}),
         }
     }
     pub fn from_json(v: &Value) -> Option<Self> {
@@ -191,6 +213,7 @@ impl ContentFault {
             "setbyte" => ContentFault::SetByte(u("i")?, u("byte")? as u8),
             "stale_tail" => ContentFault::StaleTail(bytes_from_json(v.get("old")?)?),
             "replace" => ContentFault::Replace(bytes_from_json(v.get("new")?)?),
+            "confusable" => ContentFault::Confusable(u("i")?),
             _ => return None,
         })
     }
